@@ -94,7 +94,13 @@ def r_C04a(root):
         ob("C04", "C04.a", L, "STRING", "regex branch for delimiter %s" % q, okb)
     if branches and seen_q != {"'", '"'}: out.append(Finding("C04", "C04.a", L, "STRING", rxsrc, "STRING delimiters are %s, documented ' and \"" % sorted(seen_q)))
     # (2) converter == documented unescape on every word of the regex language up to length 6
-    param, body, label = _converter(mm, lang)
+    # the converter as the meta-model really installs it: TextXMetaModel.__init__ is interpreted (sa/objmodel.py) and the text is sent
+    # through TextXMetaModel.process(text, 'STRING', ...), whatever form the converter has (lambda, local def, method, table entry)
+    from sa import objmodel
+    me_, base_ = objmodel.new_metamodel(root); label = "TextXMetaModel.process(text, 'STRING')"
+    def _conv(w):
+        k_, v_ = objmodel.call_method(root, me_, base_, "process", w, "STRING", "f", 1, 1)
+        return v_ if k_ == "ret" else "<%s>" % v_.cls
     try: nfa = rx.Nfa(rxsrc)
     except rx.Unsupported as e: raise AnalysisError("STRING regex outside the automaton subset: %s" % e)
     SIG = ["a", "\\", "'", '"']
@@ -112,9 +118,7 @@ def r_C04a(root):
     if len(words) < 50: raise AnalysisError("STRING regex language has only %d words up to length 6" % len(words))
     badw = []
     for w in words:
-        try: got = _run(body, param, w)
-        except _Unsup: raise
-        except Exception as e: got = "<%s>" % type(e).__name__
+        got = _conv(w)
         if got != _spec(w): badw.append((w, got, _spec(w)))
     inst += 1
     ob("C04", "C04.a", MM, "TextXMetaModel.__init__", "STRING converter %s evaluated on %d words of the STRING language (exhaustive to length 6 over {a,\\,',\"}): %d disagree with the documented unescape" % (label[:40], len(words), len(badw)), not badw)
